@@ -54,6 +54,38 @@ def comment_regions(text):
     return regions
 
 
+def replay_double_signal():
+    """two stop signals in a row while the real binary scans a large tree: it must still exit by itself"""
+    import os
+    import shutil
+    import signal
+    import subprocess
+    import tempfile
+    import time
+    binary = native.build_binary("debug")
+    d = tempfile.mkdtemp(prefix="blv-sig2-", dir=os.environ.get("BLV_SCRATCH") or "/var/tmp")
+    try:
+        os.makedirs(os.path.join(d, "src"))
+        for i in range(6000):
+            with open(os.path.join(d, "src", "f%d.rs" % i), "w") as f:
+                f.write('fn f%d(){ info!("a"); }\n' % i)
+        with open(os.path.join(d, "Breadlog.yaml"), "w") as f:
+            f.write("source_dir: src\nuse_cache: false\nrust:\n  log_macros:\n    - module: log\n      name: info\n")
+        for first, second in ((signal.SIGINT, signal.SIGTERM), (signal.SIGTERM, signal.SIGTERM), (signal.SIGINT, signal.SIGINT)):
+            p = subprocess.Popen([binary, "--config", os.path.join(d, "Breadlog.yaml"), "--check"], stdout=subprocess.DEVNULL,
+                                 stderr=subprocess.DEVNULL)
+            time.sleep(0.25)
+            p.send_signal(first)
+            p.send_signal(second)
+            rc = p.wait(timeout=120)
+            if rc < 0:
+                return {"reproduced": True, "exit_status": rc, "signals": [int(first), int(second)],
+                        "why": "process was killed by the second signal"}
+        return {"reproduced": False, "why": "process exited by itself after two signals in a row"}
+    finally:
+        shutil.rmtree(d, ignore_errors=True)
+
+
 def replay_signal(missing):
     """send the unregistered signal to the real binary while it scans a large tree"""
     import os
@@ -91,6 +123,11 @@ def replay(prop, r):
     if kind == "signal":
         try:
             return replay_signal(exp["missing"])
+        except Exception as e:  # noqa
+            return {"reproduced": False, "why": "signal replay failed: %r" % (e,)}
+    if kind == "double_signal":
+        try:
+            return replay_double_signal()
         except Exception as e:  # noqa
             return {"reproduced": False, "why": "signal replay failed: %r" % (e,)}
     if r.get("name") == "m-c04-dispatch":
@@ -156,6 +193,13 @@ def replay(prop, r):
             n = int(text[d0:d0 + exp["ndigits"]])
             info["id"] = n
             info["reproduced"] = not any(e["reference"] == n for e in ents)
+        elif kind == "entry_ref":
+            n = int(text[exp["digits_at"]:exp["digits_at"] + exp["ndigits"]])
+            info["id"] = n
+            if exp["has_ref"]:
+                info["reproduced"] = not (len(ents) == 1 and ents[0]["reference"] == n)
+            else:
+                info["reproduced"] = not (len(ents) == 1 and ents[0]["reference"] is None)
         elif kind == "ordered":
             info["reproduced"] = any(p2 <= p1 for p1, p2 in zip(poss, poss[1:])) or any(p > len(text.encode()) for p in poss)
         else:
